@@ -7,6 +7,9 @@ hook_shas = [l.split()[0] for l in hooks_commits if l.split(' ',1)[1].startswith
 
 # property id -> (engine, technique, level text, level note, design_ref)
 CHECKS = {
+ 'C19': ('mutload', 'exhaustive 1-deviation (quick) / 2-deviation (thorough, small seeds) mutation space of seed documents produced by the library itself, each loaded by the real loader in an isolated worker process with allocation cap and wall-clock limit',
+         'Seeds (STAM JSON stores for each selector family with gaps and temporary ids, annotation arrays, dataset files, STAM CSV files, CBOR files, hand-written cyclic/dangling @include stores) are mutated at every position with every operator (JSON tree: delete / duplicate / swap / retype to 14 values / @type rename / reference redirection / selector wrapping; CSV: every cell to 15 values, row and column operations; CBOR: every truncation, bit flip and 5 byte values); the loader must return Err or a store that passes the C01-C03 consistency checks, never panic, abort, exceed the allocation cap or the time limit; all strings of length <= 3 go through the small string parsers.',
+         'Time proportionality approximated by a 5 s limit; memory by a 1 GiB / 256 MiB-per-request cap; bounded seed set.', 'DESIGN.md section 4 C19'),
  'C06': ('enum', 'bounded-exhaustive enumeration of texts x sets of known selections (dense: all ranges; sparse: reference+candidate) x every reference (range, 2-element set, annotation) x 82 operator variants, against the relation test applied to every known selection',
          'For every prefix (length 0..10 quick / 0..12 thorough) of a text with whitespace runs, plus a long-gap and a multi-byte text: on a resource where all (L+1)(L+2)/2 ranges are known selections and on sparse resources, every reference selection, ordered pair as set, and annotation, through all five related_text entry points: the result must be exactly the known selections for which reference.test(op, candidate) holds, each once, in textual order.',
          'Bounded text length; the relation test itself is the oracle (C13 decides its correctness); InSet/SameRange/Equals{all} not included.', 'DESIGN.md section 4 C06'),
